@@ -40,6 +40,17 @@ def load():
             feats = set(prog.crate.features)
             prog.crate.features = feats | {'cluster'}
             prog.crate.add_source('EXT/ractor/src/message.rs', open(ext2).read())
+            # the supervision / lifecycle / group-change events a session subscribes to
+            for rel in ('actor/messages.rs', 'registry/pid_registry.rs'):
+                pth = os.path.join(mirdump.REPO, 'ractor', 'src', rel)
+                if os.path.exists(pth):
+                    prog.crate.add_source('EXT/ractor/src/' + rel, open(pth).read())
+            pth = os.path.join(mirdump.REPO, 'ractor', 'src', 'pg.rs')
+            if os.path.exists(pth):
+                src = open(pth).read()
+                mm = re.search(r'pub enum GroupChangeMessage \{.*?\n\}', src, re.S)
+                if mm:
+                    prog.crate.add_source('EXT/ractor/src/pg_group_change.rs', mm.group(0))
             prog.crate.features = feats
         prog.rescan_impls()
         prog._gen_added = True
